@@ -536,4 +536,63 @@ theorem truncated_is_error (cfg : Cfg) (env : Names) (fuel : Nat) (s : Schema) (
     simp at this
     exact absurd this.2 hq
 
+/-- a framed reader never succeeds on a strict prefix of what it consumed -/
+theorem framed_prefix_error {α : Type} {f : Reader α} (hf : Framed f) {c : Bytes} {v : α}
+    (h : f c = .ok (v, [])) {p q : Bytes} (hp : c = p ++ q) (hq : q ≠ []) : ∃ e, f p = .error e := by
+  cases hd : f p with
+  | error e => exact ⟨e, rfl⟩
+  | ok res =>
+    obtain ⟨v', r'⟩ := res
+    obtain ⟨c', hc', hframe⟩ := hf p v' r' hd
+    have := hframe (r' ++ q)
+    rw [← List.append_assoc, ← hc', ← hp, h] at this
+    simp only [Except.ok.injEq, Prod.mk.injEq] at this
+    have : r' ++ q = [] := this.2.symm
+    simp at this
+    exact absurd this.2 hq
+
+/-- the container header as a reader: metadata and marker -/
+def headerReader (cfg : Cfg) (fuel : Nat) : Reader (List (Bytes × Bytes) × Bytes) :=
+  fun bs => match readHeader cfg fuel bs with
+    | .ok (md, marker, rest) => .ok ((md, marker), rest)
+    | .error e => .error e
+
+theorem framed_headerReader (cfg : Cfg) (fuel : Nat) : Framed (headerReader cfg fuel) := by
+  apply framed_congr (g := rbind (takeExact 4) (fun m =>
+    if m ≠ magic then rpure (fun _ => (.error .other : Except Err (List (Bytes × Bytes) × Bytes))) ()
+    else rbind (decode cfg [] fuel (.map .bytes)) (fun v =>
+      match v with
+      | .map es => rbind (takeExact 16) (rpure (fun marker => .ok (es.filterMap metaBytesOnly, marker)))
+      | _ => rpure (fun _ => (.error .other : Except Err (List (Bytes × Bytes) × Bytes))) ())))
+  · intro bs
+    unfold headerReader readHeader rbind
+    cases takeExact 4 bs with
+    | error e => rfl
+    | ok p =>
+      obtain ⟨m, r⟩ := p
+      dsimp only
+      by_cases hm : m = magic
+      · simp only [hm, ne_eq, not_true_eq_false, if_false]
+        cases decode cfg [] fuel (.map .bytes) r with
+        | error e => rfl
+        | ok p2 =>
+          obtain ⟨v, r1⟩ := p2
+          dsimp only
+          cases v <;> try rfl
+          case map es =>
+            simp only [rpure]
+            cases takeExact 16 r1 with
+            | error e => rfl
+            | ok p3 => rfl
+      · simp [hm, rpure]
+  · apply framed_bind (framed_takeExact 4)
+    intro m
+    split
+    · exact framed_pure _ _
+    · apply framed_bind (framed_decode cfg [] fuel (.map .bytes))
+      intro v
+      split
+      · exact framed_bind (framed_takeExact 16) (framed_pure _)
+      · exact framed_pure _ _
+
 end Avro
